@@ -483,43 +483,71 @@ func run(r *mon.Report, tier string, idx int, rng *rand.Rand) {
 		if err != nil {
 			r.Inc("reconcile_errors")
 		}
-		views := w.views()
-		for _, cmd := range cmds {
-			reason := cmd.Reason()
-			method := fmt.Sprintf("%T", cmd.Method)
-			method = method[strings.LastIndex(method, ".")+1:]
-			r.Inc("commands:" + method)
-			selected := map[string]bool{}
-			for _, c := range cmd.Candidates {
-				selected[c.Name()] = true
-				r.Inc("candidates_judged")
-				bad := w.judgeCandidate(c, reason, views)
-				if len(bad) > 0 {
-					r.Violate(fmt.Sprintf("ineligible-node-selected:%s:%s", method, bad[0]),
-						fmt.Sprintf("%s (reason %s) selected node %s although: %s", method, reason, c.Name(), strings.Join(bad, ", ")),
-						caseDesc, map[string]any{"round": round, "command": cmd.String(), "harness_blocker": w.applied[c.Name()]})
+		judge := func(cmds []*disruption.Command) {
+			views := w.views()
+			for _, cmd := range cmds {
+				reason := cmd.Reason()
+				method := fmt.Sprintf("%T", cmd.Method)
+				method = method[strings.LastIndex(method, ".")+1:]
+				r.Inc("commands:" + method)
+				selected := map[string]bool{}
+				for _, c := range cmd.Candidates {
+					selected[c.Name()] = true
+					r.Inc("candidates_judged")
+					bad := w.judgeCandidate(c, reason, views)
+					if len(bad) > 0 {
+						r.Violate(fmt.Sprintf("ineligible-node-selected:%s:%s", method, bad[0]),
+							fmt.Sprintf("%s (reason %s) selected node %s although: %s", method, reason, c.Name(), strings.Join(bad, ", ")),
+							caseDesc, map[string]any{"round": round, "command": cmd.String(), "harness_blocker": w.applied[c.Name()]})
+					}
+				}
+				// evidence: which blocked nodes were spared while this method acted
+				for n, b := range w.applied {
+					if !selected[n] && b != "none" && b != "" {
+						r.Inc("spared:" + method + ":" + strings.TrimPrefix(b, "late:"))
+						r.Sig("%s|%s", method, strings.TrimPrefix(b, "late:"))
+					}
+				}
+				if len(cmd.Candidates) > 0 {
+					r.Sig("%s|selected:%s", method, strings.TrimPrefix(w.applied[cmd.Candidates[0].Name()], "late:"))
 				}
 			}
-			// evidence: which blocked nodes were spared while this method acted
-			for n, b := range w.applied {
-				if !selected[n] && b != "none" && b != "" {
-					r.Inc("spared:" + method + ":" + strings.TrimPrefix(b, "late:"))
-					r.Sig("%s|%s", method, strings.TrimPrefix(b, "late:"))
+			for _, cmd := range cmds {
+				for _, c := range cmd.Candidates {
+					w.inflight[c.Name()] = true
 				}
-			}
-			if len(cmd.Candidates) > 0 {
-				r.Sig("%s|selected:%s", method, strings.TrimPrefix(w.applied[cmd.Candidates[0].Name()], "late:"))
+				// nodes that received pods in the command's simulation are nominated by StartCommand
+				for _, en := range cmd.Results.ExistingNodes {
+					if len(en.Pods) > 0 {
+						w.nominatedAt[en.Name()] = e.Clock.Now()
+					}
+				}
 			}
 		}
-		for _, cmd := range cmds {
-			for _, c := range cmd.Candidates {
-				w.inflight[c.Name()] = true
-			}
-			// nodes that received pods in the command's simulation are nominated by StartCommand
-			for _, en := range cmd.Results.ExistingNodes {
-				if len(en.Pods) > 0 {
-					w.nominatedAt[en.Name()] = e.Clock.Now()
+		judge(cmds)
+		// half of the rounds: the orchestration queue works on the new commands at once (a command without replacements
+		// deletes its candidates and completes), and the controller reconciles again BEFORE the informers have told cluster
+		// state about those deletions — the immediate requeue after a success. What it selects then is judged as well.
+		if len(cmds) > 0 && rng.Intn(2) == 0 {
+			completed := 0
+			for _, cmd := range cmds {
+				if p, v, st := mon.Guard(func() { _ = d.ReconcileQueue(cmd) }); p {
+					r.Violate("panic-in-queue-reconcile", fmt.Sprintf("%v", v), caseDesc, st)
+					return
 				}
+				if cmd.Succeeded {
+					completed++
+				}
+			}
+			if completed > 0 {
+				r.Count("commands_completed_before_the_next_pass_without_state_sync", completed)
+				more, _, panicked, pv, stack := d.Round()
+				if panicked {
+					r.Violate("panic-in-disruption-reconcile", fmt.Sprintf("%v", pv), caseDesc, stack)
+					return
+				}
+				r.Count("commands_of_a_pass_run_before_state_heard_of_the_deletions", len(more))
+				judge(more)
 			}
 		}
 		if r.WantSample() && len(cmds) > 0 {
